@@ -483,6 +483,15 @@ def check_mirror(ctx):
         calls = all_indices(nodes, lambda n: n.get("k") == "call" and sir.call_path(n) == "write_template_item")
         ok = loop is not None and len(calls) >= 2 and all(c > loop for c in calls)
         rev = loop is not None and any(is_mcall(x, "rev") for x in sir.walk(nodes[loop]["e"]))
+        # the list may be iterated through a local copy: that copy must not be re-ordered
+        if loop is not None:
+            it_ = sir.strip_ref(nodes[loop]["e"])
+            while it_.get("k") == "mcall" and it_["m"] in ("iter", "into_iter", "iter_mut"):
+                it_ = sir.strip_ref(it_["recv"])
+            if it_.get("k") == "path" and len(it_["segs"]) == 1:
+                lname = it_["segs"][0]
+                if any(x.get("k") == "mcall" and x["m"] in ("sort", "sort_by", "sort_by_key", "sort_unstable", "sort_unstable_by", "sort_unstable_by_key", "sort_by_cached_key", "reverse", "rotate_left", "rotate_right", "swap", "retain", "dedup", "dedup_by_key") and sir.root_expr_name(x["recv"]) == lname for x in nodes):
+                    rev = True
         obs.append(ob("C05.mirror/gen/start", ok and not rev, ctx.where(f), "script scopes pushed in declaration order before any template body is generated: %s" % (ok and not rev)))
     else:
         obs.append(ob("C05.mirror/gen/start", False, "proc_gen/tag.rs", "Template::to_proc_gen not found"))
